@@ -2,11 +2,17 @@
    Each definition transcribes the Python method named in its comment: same allocations, same
    constraints in the same order, run-time checks as CRaiseIf.  Stage 1 never sees input values. *)
 From Coq Require Import ZArith List Bool.
-From PySnark.Model Require Import Lc Sym.
+From PySnark.Model Require Import Lc Sym Good.
 Import ListNotations.
 Open Scope Z_scope.
 
-Record cfg := { modulus : Z; bitlength : nat; resolution : Z; ign0 : bool }.
+Record cfg := { bitlength : nat; resolution : Z }.
+
+Section WithP.
+Context {p : Z}.       (* the backend's modulus (implicit everywhere) *)
+Local Notation slc := (Sym.slc p).
+Local Notation gtriple := (Sym.gtriple p).
+Local Notation cmd := (Sym.cmd p).
 
 (* generator state *)
 Record gst := {
@@ -36,16 +42,16 @@ Definition raise_if (b : bexp) (e : exn) : G unit := fun s => (inl tt, s, [CRais
 (* exception decided by types / public values only *)
 Definition static_raise {A} (e : exn) : G A := fun s => (inr e, s, [CRaiseIf BTrue e (unw_triple s)]).
 
-Definition mk (v : valexp) (l : lc) : slc := {| sval := v; wire := l; oid := 0 |}.
+Definition var_slc (v : var) : slc := {| sval := VWit v; wire := [(v, 1)]; oid := 0; good := good_var p v |}.
 
 Definition privval (h : valexp) : G slc := fun s =>
   let v := - (npriv s + 1) in
-  (inl (mk (VWit v) [(v, 1)]),
+  (inl (var_slc v),
    {| npub := npub s; npriv := npriv s + 1; noid := noid s; guard := guard s; ignore := ignore s; one := one s; unw := unw s |},
    [CAlloc Priv h]).
 Definition pubval (h : valexp) : G slc := fun s =>
   let v := npub s + 1 in
-  (inl (mk (VWit v) [(v, 1)]),
+  (inl (var_slc v),
    {| npub := npub s + 1; npriv := npriv s; noid := noid s; guard := guard s; ignore := ignore s; one := one s; unw := unw s |},
    [CAlloc Pub h]).
 Definition fresh_oid : G Z := fun s =>
@@ -56,17 +62,23 @@ Definition set_unw (u : option gtriple) : G unit := fun s =>
   (inl tt, {| npub := npub s; npriv := npriv s; noid := noid s; guard := guard s; ignore := ignore s; one := one s; unw := u |}, []).
 
 (* ---- pure LinComb constructors ---- *)
-Definition constv (k : Z) : slc := mk (VConst k) [(0, k)].          (* ConstVal(k) = LinComb(k, one()*k) *)
-Definition ZERO : slc := {| sval := VConst 0; wire := []; oid := 2 |}.          (* LinComb.ZERO *)
-Definition ONE_SAFE : slc := {| sval := VConst 1; wire := [(0, 1)]; oid := 1 |}. (* LinComb.ONE_SAFE *)
-Definition add (x y : slc) : slc := mk (VAdd (sval x) (sval y)) (lc_add (wire x) (wire y)).   (* __add__ on two LinCombs *)
-Definition neg (x : slc) : slc := mk (VSub (VConst 0) (sval x)) (lc_neg (wire x)).             (* __neg__ *)
+Definition constv (k : Z) : slc := {| sval := VConst k; wire := [(0, k)]; oid := 0; good := good_const p k |}.          (* ConstVal(k) = LinComb(k, one()*k) *)
+Definition ZERO : slc := {| sval := VConst 0; wire := []; oid := 2; good := good_zero p |}.          (* LinComb.ZERO *)
+Definition ONE_SAFE : slc := {| sval := VConst 1; wire := [(0, 1)]; oid := 1; good := good_const p 1 |}. (* LinComb.ONE_SAFE *)
+Definition add (x y : slc) : slc :=
+  {| sval := VAdd (sval x) (sval y); wire := lc_add (wire x) (wire y); oid := 0; good := good_add p _ _ _ _ (good x) (good y) |}.   (* __add__ on two LinCombs *)
+Definition neg (x : slc) : slc :=
+  {| sval := VSub (VConst 0) (sval x); wire := lc_neg (wire x); oid := 0; good := good_neg p _ _ (good x) |}.             (* __neg__ *)
 Definition sub (x y : slc) : slc := add x (neg y).                                             (* __sub__ = self + (-other) *)
-Definition scale (x : slc) (k : Z) : slc := mk (VMul (sval x) (VConst k)) (lc_scale (wire x) k). (* __mul__ with int *)
+Definition scale (x : slc) (k : Z) : slc :=
+  {| sval := VMul (sval x) (VConst k); wire := lc_scale (wire x) k; oid := 0; good := good_scale p _ _ k (good x) |}. (* __mul__ with int *)
 Definition addc (x : slc) (k : Z) : slc := add x (constv k).        (* x + k  = x + ConstVal(k) *)
 Definition subc (x : slc) (k : Z) : slc := add x (constv (- k)).    (* x - k  = x + (-k) = x + ConstVal(-k) *)
 Definition rsubc (k : Z) (x : slc) : slc := add (neg x) (constv k). (* k - x  = (-x).__radd__(k) = (-x) + ConstVal(k) *)
-Definition recast (x : slc) (v : valexp) : slc := {| sval := v; wire := wire x; oid := oid x |}. (* x.value = v (in place) *)
+Definition recast_modp (x : slc) : slc :=            (* x.value %= modulus (in place) *)
+  {| sval := VModP (sval x); wire := wire x; oid := oid x; good := good_modp p _ _ (good x) |}.
+Definition with_oid (x : slc) (o : Z) : slc := {| sval := sval x; wire := wire x; oid := o; good := good x |}.
+Definition zero_anon : slc := {| sval := VConst 0; wire := []; oid := 0; good := good_zero p |}.
 
 Definition emit (a b y : slc) : G unit := emitc (CEmit a b y).       (* add_constraint_unsafe *)
 
@@ -132,7 +144,7 @@ Fixpoint mapM {A B} (f : A -> G B) (l : list A) : G (list B) :=
 Fixpoint from_bits_aux (acc : slc) (bs : list slc) (i : Z) : slc :=
   match bs with [] => acc | b :: bs' => from_bits_aux (add acc (scale b (2 ^ i))) bs' (i + 1) end.
 Definition from_bits (bs : list slc) : slc :=
-  match bs with [] => mk (VConst 0) [] (* plain int 0; never reached with bitlength >= 1 *)
+  match bs with [] => zero_anon (* plain int 0; callers test for the empty list first *)
               | b :: bs' => from_bits_aux (addc (scale b 1) 0) bs' 1 end.
 
 (* (v & (1 << i)) >> i *)
@@ -160,11 +172,11 @@ Definition check_positive (x : slc) (k : nat) : G slc :=
   bs <- mapM_range (fun i => privbool (VIte A (pybit ab i) (VConst 0))) 0 k ;;
   add_constraint (scale r 2) x (add (add x (from_bits bs)) (rsubc 1 r)) true ;;; ret r.
 
-(* LinComb.assert_positive(bits=k): checks k at run time, decomposes with the *global* bitlength *)
+(* LinComb.assert_positive(bits=k): run-time check, then to_bits(k) *)
 Definition assert_positive (x : slc) (k : nat) : G unit :=
   s <- get ;;
   raise_if (BAnd (BNot (ignore s)) (BOr (vlt0 (sval x)) (BNot (BBitLenLe (sval x) (Z.of_nat k))))) AssertionError ;;;
-  _ <- to_bits x nbits ;; ret tt.
+  _ <- to_bits x k ;; ret tt.
 
 (* comparisons (both operands LinComb) *)
 Definition lt (x y : slc) : G slc := check_positive (subc (sub y x) 1) nbits.   (* (other-self-1) *)
@@ -194,11 +206,11 @@ Definition assert_ne (x y : slc) : G unit :=
   s <- get ;;
   raise_if (BAnd (BNot (ignore s)) (BEq (sval x) (sval y))) AssertionError ;;;
   assert_nonzero (sub x y).
-(* assert_range(lo, hi): run-time lo <= x < hi; circuit (x-lo) >= 0 and (hi-x) >= 0 *)
+(* assert_range(lo, hi): run-time lo <= x < hi; circuit (x-lo) >= 0 and (hi-x-1) >= 0 *)
 Definition assert_range (x lo hi : slc) : G unit :=
   s <- get ;;
   raise_if (BAnd (BNot (ignore s)) (BOr (BLt (sval x) (sval lo)) (BLe (sval hi) (sval x)))) AssertionError ;;;
-  assert_positive (sub x lo) nbits ;;; assert_positive (sub hi x) nbits.
+  assert_positive (sub x lo) nbits ;;; assert_positive (subc (sub hi x) 1) nbits.
 
 (* LinComb.val(): (self - PubVal(self.value)).assert_zero() *)
 Definition lcval (x : slc) : G unit := o <- pubval (sval x) ;; assert_zero (sub x o).
@@ -208,8 +220,12 @@ Definition truediv_int (x : slc) (k : Z) : G slc :=
   s <- get ;;
   let B := BAnd (isg s) (BEq (VMod (sval x) (VConst k)) (VConst 0)) in
   raise_if (BAnd (BNot B) (BNot (ignore s))) ValueError ;;;
-  raise_if (BEq (VModP (VConst k)) (VConst 0)) ZeroDivisionError ;;;      (* backend.fieldinverse(k) *)
-  ret (mk (VIte B (VDiv (sval x) (VConst k)) (VConst 0)) (lc_scale (wire x) (finv (modulus c) k))).
+  match Z.eq_dec (k mod p) 0 with
+  | left _ => static_raise ZeroDivisionError                                (* backend.fieldinverse(k) *)
+  | right Hk => ret {| sval := VIte B (VDiv (sval x) (VConst k)) (VModP (VMul (sval x) (VConst (finv p k))));
+                       wire := lc_scale (wire x) (finv p k); oid := 0;
+                       good := good_div p _ _ k (isg s) Hk (good x) |}
+  end.
 (* __truediv__ by a LinComb *)
 Definition truediv (x y : slc) : G slc :=
   s <- get ;;
@@ -245,7 +261,7 @@ Fixpoint powers (curr : slc) (n : nat) : G (list slc) :=
   match n with
   | O => ret []
   | S n' => sq <- mul curr curr ;;       (* curr ** 2 = curr * curr ** 1 *)
-            let sq' := recast sq (VModP (sval sq)) in
+            let sq' := recast_modp sq in
             l <- powers sq' n' ;; ret (sq' :: l)
   end.
 Definition same_obj (a b : slc) : bool := andb (negb (oid a =? 0)) (oid a =? oid b).   (* Python `a is b` *)
@@ -264,7 +280,7 @@ Fixpoint zipM {A B C} (f : A -> B -> G C) (l1 : list A) (l2 : list B) : G (list 
 Fixpoint prodM (acc : slc) (l : list slc) : G slc :=
   match l with
   | [] => ret acc
-  | m :: l' => r <- mul acc m ;; prodM (recast r (VModP (sval r))) l'
+  | m :: l' => r <- mul acc m ;; prodM (recast_modp r) l'
   end.
 Definition pow_lc (x y : slc) : G slc :=
   bits <- to_bits y nbits ;;
@@ -294,7 +310,7 @@ Definition add_guard (cnd : slc) : G gtriple :=
   raise_if (BAnd (BNot (ignore s)) (BAnd (vne (sval cnd) (VConst 0)) (vne (sval cnd) (VConst 1)))) RuntimeError ;;;
   g <- match guard s with None => ret cnd | Some g0 => land_lc g0 cnd end ;;
   o <- (if oid g =? 0 then fresh_oid else ret (oid g)) ;;
-  let g' := {| sval := sval g; wire := wire g; oid := o |} in
+  let g' := with_oid g o in
   set_globals (Some g') (BOr (ignore s) (BEq (sval cnd) (VConst 0))) g' ;;;
   ret (cur_triple s).
 Definition restore_guard (b : gtriple) : G unit := set_globals (g_guard b) (g_ignore b) (g_one b).
@@ -306,3 +322,6 @@ Definition guarded {A} (cnd : slc) (body : G A) : G A :=
   r <- body ;;
   restore_guard bak ;;; set_unw (unw s0) ;;; ret r.
 End WithCfg.
+End WithP.
+Notation "x <- m ;; f" := (bind m (fun x => f)) (at level 61, m at next level, right associativity).
+Notation "m ;;; f" := (bind m (fun _ => f)) (at level 61, right associativity).
